@@ -36,14 +36,15 @@ type Op struct {
 }
 
 type world struct {
-	h    *hist.H
-	c    *ev.Case
-	fail func(format string, a ...any)
+	h           *hist.H
+	c           *ev.Case
+	fail        func(format string, a ...any)
+	noOverwrite bool
 }
 
 // plainOf returns the plain select paired with an aggregate query: same WHERE, all fields, per series.
 func plainOf(q qref.Query) qref.Query {
-	p := qref.Query{Mst: q.Mst, Star: true, HasTMin: q.HasTMin, TMin: q.TMin, HasTMax: q.HasTMax, TMax: q.TMax, Tag: q.Tag, GroupAll: true}
+	p := qref.Query{Mst: q.Mst, Star: true, HasTMin: q.HasTMin, TMin: q.TMin, HasTMax: q.HasTMax, TMax: q.TMax, Tag: q.Tag, Field: q.Field, GroupAll: true}
 	return p
 }
 
@@ -97,7 +98,7 @@ func (w *world) exec(op Op) (paired bool) {
 			pseries = pres.Results[0].Series
 		}
 		// a plain select that disagrees with the model is C02's business, not C09's
-		if d := qref.Compare(qref.Eval(p, qref.RowsFromStore(h.St, mst), hist.FieldNames), pseries); d != "" {
+		if d := qref.Compare(qref.Eval(p, qref.RowsFromStore(h.St, mst), hist.FieldNames), pseries); d != "" && (q.Field == nil || w.noOverwrite) {
 			w.c.Class("plain-select-disagrees-with-model(attributed-to-C02)")
 			return false
 		}
@@ -105,8 +106,10 @@ func (w *world) exec(op Op) (paired bool) {
 		if err != nil {
 			w.fail("plain select %q: %v", p.SQL(), err)
 		}
-		// the field predicate of the aggregate is applied by the reference over the plain rows
-		exp := qref.Eval(q, rows, hist.FieldNames)
+		// the plain select carries the same WHERE (field predicate included): the function is applied to its rows as they are
+		qa := q
+		qa.Field = nil
+		exp := qref.Eval(qa, rows, hist.FieldNames)
 		ares, err := h.Srv.Query(h.DB, q.SQL(), nil)
 		if err != nil {
 			bb.Fatal("query transport error: %v", err)
@@ -253,6 +256,7 @@ func runCase(t *rapid.T, c *ev.Case) {
 	w.h = hist.New(c, 9, map[string]string{"ptnum-pernode": pt, "max-rows-per-segment": "8"}, w.fail)
 	defer w.h.Close()
 	g := &gen{written: map[string]int{}, times: map[int]bool{}, noOverwrite: rapid.Bool().Draw(t, "noOverwrite")}
+	w.noOverwrite = g.noOverwrite
 	if g.noOverwrite {
 		c.Class("history-without-cross-request-overwrites")
 	}
@@ -260,9 +264,41 @@ func runCase(t *rapid.T, c *ev.Case) {
 	pairs := func(t *rapid.T, n int) {
 		for i := 0; i < n; i++ {
 			q := g.query(t)
-			if q.Field != nil && qref.SeriesWithOnlyNullAggregates(q, qref.RowsFromStore(w.h.St, mst)) {
-				c.Excluded("known:C08-null-series-drops-groups")
-				continue
+			if q.Fill == "previous" {
+				// KNOWN FINDING C08-H (fill(previous) leaks between groups / leaves cells unfilled): not generated here
+				c.Excluded("known:C08-H")
+				q.Fill = ""
+			}
+			if q.Desc {
+				for _, cc := range q.Sel {
+					if cc.Func == "first" || cc.Func == "last" {
+						// KNOWN FINDING C08-B2 (first/last under ORDER BY time DESC)
+						c.Excluded("known:C08-B2")
+						q.Desc = false
+					}
+				}
+			}
+			if !q.GroupAll {
+				fl, distinct := false, map[qref.Call]bool{}
+				for _, cc := range q.Sel {
+					distinct[cc] = true
+					if cc.Func == "first" || cc.Func == "last" {
+						fl = true
+					}
+				}
+				if fl && len(distinct) >= 2 {
+					// KNOWN FINDING C08-J (several calls incl. first/last over a group of several series, several partitions)
+					c.Excluded("known:C08-J")
+					q.GroupAll, q.GroupBy = true, nil
+				}
+			}
+			if q.Field != nil && !g.noOverwrite {
+				// KNOWN FINDING C08-I (field predicates evaluated on per-generation row fragments)
+				c.Excluded("known:C08-I")
+				q.Field = nil
+				if q.Interval == 0 {
+					q.Exact = true
+				}
 			}
 			if !w.exec(Op{Kind: "pair", Query: &q}) {
 				continue
